@@ -72,7 +72,7 @@ type Contract struct {
 	Inline          bool
 	NoInline        bool
 	Base            *Contract // callspec refining a module function: that function's own contract (set at the call)
-	Trusted         bool // contract assumed, body not verified (externs are always trusted)
+	Trusted         bool      // contract assumed, body not verified (externs are always trusted)
 	Replay          string
 	Panics          []*Clause
 	Splits          []*Clause
@@ -138,6 +138,8 @@ type Specs struct {
 	Guards    []*Guard
 	Files     []string
 	Macros    map[string]*Macro
+	// GlobalFacts: heap key of a dependency's package-level variable -> predicate assumed of every value read from it
+	GlobalFacts map[string]string
 }
 
 type Macro struct {
@@ -263,6 +265,22 @@ func (sp *Specs) loadSpecFile(path, pkg string) error {
 				}
 				name, srt := splitWord(r2)
 				sp.Ghosts[name] = &GhostVar{Name: name, Sort: Sort(strings.TrimSpace(srt)), SpecOnly: specOnly}
+			case "globalfact":
+				// globalfact <import path>.<Var> <predicate>: every value read from that package-level
+				// variable of a dependency satisfies the (uninterpreted) predicate -- an assumption
+				g, pred := splitWord(rest)
+				i := strings.LastIndex(g, ".")
+				if i < 0 || strings.TrimSpace(pred) == "" {
+					return fail(l, "expected 'globalfact <import path>.<Var> <predicate>'")
+				}
+				path := g[:i]
+				if j := strings.LastIndex(path, "/"); j >= 0 {
+					path = path[j+1:]
+				}
+				if sp.GlobalFacts == nil {
+					sp.GlobalFacts = map[string]string{}
+				}
+				sp.GlobalFacts["Glob!"+path+"."+g[i+1:]] = strings.TrimSpace(pred)
 			case "const":
 				name, r2 := splitWord(rest)
 				r2 = strings.TrimSpace(strings.TrimPrefix(strings.TrimSpace(r2), "="))
